@@ -2107,6 +2107,15 @@ impl Connection {
         );
 
         self.process_decrypted_packet(now, remote, Some(packet_number), packet.into())?;
+        if self.state.is_closed() {
+            // The very first packet closed the connection (it carried CONNECTION_CLOSE). Stop the
+            // idle timer and start draining, as `handle_packet` does for every later packet;
+            // otherwise the connection lingers until the idle timeout reports a second loss.
+            self.close_common();
+            if !self.state.is_drained() {
+                self.set_close_timer(now);
+            }
+        }
         if let Some(data) = remaining {
             self.handle_coalesced(now, remote, ecn, data);
         }
@@ -2446,7 +2455,12 @@ impl Connection {
 
         // State transitions for error cases
         if let Err(conn_err) = result {
-            self.error = Some(conn_err.clone());
+            if !was_closed {
+                // The reason a connection ended is reported to the application once. A stateless
+                // reset (or anything else) arriving while already closed or draining must not
+                // produce a second `ConnectionLost`, nor one after a local `close()`.
+                self.error = Some(conn_err.clone());
+            }
             self.state = match conn_err {
                 ConnectionError::ApplicationClosed(reason) => State::closed(reason),
                 ConnectionError::ConnectionClosed(reason) => State::closed(reason),
